@@ -266,7 +266,8 @@ def relations(ctx, quick):
                                   "variant": bool(re.search(r"_\d|bufferify|_int|_double|_float|_arg", " ".join(hits)))})
     # a member switched ON under a container that is OFF: the member's wrapper is generated (the container is promoted),
     # its siblings stay off
-    ptodo = [(cont, lang) for cont in ("class", "library", "nested", "nested2") for lang in ("c", "fortran", "python", "lua")]
+    # ("libns": as "library", and the description puts everything into an initial namespace with the top-level `namespace:` field)
+    ptodo = [(cont, lang) for cont in ("class", "library", "libns", "nested", "nested2") for lang in ("c", "fortran", "python", "lua")]
 
     def promote(job):
         cont, lang = job
@@ -275,8 +276,10 @@ def relations(ctx, quick):
         if lang == "fortran":
             on["wrap_c"] = True
         lib = with_opts(LIB, wrap_c=True, wrap_fortran=True, wrap_python=True, wrap_lua=True)
-        if cont in ("library", "nested", "nested2"):
+        if cont in ("library", "libns", "nested", "nested2"):
             lib["options"].update(off)
+        if cont == "libns":
+            lib["namespace"] = "top"
         if cont == "nested2":
             # only outer::inner::deepfn is on: two namespace levels and the library must be promoted
             for dcl in lib["declarations"]:
